@@ -14,11 +14,13 @@ CHECKS = {
   "C01": ("vcheck", "property-based testing: generated (schema, document) pairs (samples, near-misses, unrelated) checked against a reference implementation of the RFC 8610 set semantics (PEG arrays, declarative maps); proptest shrinking", "3/C01"),
   "C02": ("vcheck", "property-based testing: generated (schema, data item) pairs x 3 encodings each, checked against the reference RFC 8610 semantics over the CBOR data model; metamorphic equality across encodings; proptest shrinking", "3/C02"),
   "C04": ("vcheck", "differential testing: generated shared-feature schemas x JSON-model documents, JSON validator vs CBOR validator verdict classes, calls isolated in worker processes; proptest shrinking", "3/C04"),
+  "C05": ("vcheck", "fuzzing-style robustness testing: grammar-sampled, mutated and random inputs to every entry point, each call in a child worker process (8 MiB stack, 4 GiB address space, per-call limit); panics / aborts / hangs are violations; growth series for the polynomial-time clause; proptest shrinking", "3/C05"),
   "C06": ("vcheck", "property-based testing: grammar-sampled documents, parse->Display->parse round-trip oracle on an independent AST skeleton, idempotence, proptest shrinking", "3/C06"),
   "C08": ("vcheck", "metamorphic testing: 1-3 composed meaning-preserving refactorings of generated schemas (extract/inline rules, identity generics, generic substitution by hand incl. nested generics, /= and //= increments, sockets, parentheses, renaming, rule order) must keep the verdict of each validator; worker-process isolation; proptest shrinking", "3/C08"),
   "C09": ("vcheck", "metamorphic testing: boolean identities between separate validator runs (choice, .and/.within, .ne/.eq, range forms, occurrence forms, prelude definitions) in four contexts, both validators, worker-process isolation; proptest shrinking", "3/C09"),
   "C10": ("vcheck", "metamorphic testing: permutations of map pairs (CBOR encoding / JSON text) and of disjoint-key schema members must not change the verdict; repeated keys compared with the reference semantics; worker-process isolation; proptest shrinking", "3/C10"),
   "C11": ("vcheck", "differential testing against a reference RFC 8949 decoder: exhaustive enumeration of short byte strings + structured/mutated generated encodings, proptest shrinking", "3/C11"),
+  "C14": ("vcheck", "property-based testing of error reporting: non-empty error lists, JSON locations resolved against the document, distinct error kinds per fault, determinism across repetition / 8 concurrent threads / a fresh process", "3/C14"),
 }
 
 REASON_NOT_BUILT = "check not built yet (work in progress; see DESIGN.md section 3)"
